@@ -304,11 +304,13 @@ SparseMatrixCSR<double> DirectSolverTakeCustomLU::buildSolverMatrix()
             /* Circle Section */
             #pragma omp for nowait
             for (int i_r = 0; i_r < grid_.numberSmootherCircles(); i_r++) {
+                VERIF_ITER(i_r);
                 buildSolverMatrixCircleSection(i_r, solver_matrix);
             }
             /* Radial Section */
             #pragma omp for nowait
             for (int i_theta = 0; i_theta < grid_.ntheta(); i_theta++) {
+                VERIF_ITER(i_theta);
                 buildSolverMatrixRadialSection(i_theta, solver_matrix);
             }
         }
